@@ -43,6 +43,7 @@ var (
 	engName = flag.String("engine", "mem", "storage engine: mem | pebble")
 	big     = flag.Bool("big", false, "include the vectors with ~5000 arguments")
 	quiet   = flag.Bool("quiet", true, "silence the server logs")
+	policy  = flag.String("policy", "local_deletion", "expiration policy of the namespace and of the simulated replicas: local_deletion | wait_compact")
 	avoid   = flag.String("avoid", "", "comma separated signatures of OPEN known findings whose inputs are not executed (they would take the harness down)")
 )
 
@@ -164,8 +165,9 @@ func main() {
 	defer oo.Close()
 	defer vo.Close()
 	flushAll := func() { co.Flush(); io.Flush(); oo.Flush(); vo.Flush() }
+	oo.Printf("CFG\tpolicy=%s engine=%s\n", *policy, *engName)
 
-	ln, err := startNode(*port, *engName)
+	ln, err := startNode(*port, *engName, *policy)
 	if err != nil {
 		fmt.Fprintln(stdout, "INCONCLUSIVE server start:", err)
 		os.Exit(3)
@@ -191,13 +193,13 @@ func main() {
 		os.Exit(2)
 	}
 
-	sand, err := newSimSM("sand", *engName)
+	sand, err := newSimSM("sand", *engName, *policy)
 	if err != nil {
 		fmt.Fprintln(stdout, "sandbox:", err)
 		os.Exit(2)
 	}
-	ra, err1 := newSimSM("a", *engName)
-	rb, err2 := newSimSM("b", *engName)
+	ra, err1 := newSimSM("a", *engName, *policy)
+	rb, err2 := newSimSM("b", *engName, *policy)
 	if err1 != nil || err2 != nil {
 		fmt.Fprintln(stdout, "replicas:", err1, err2)
 		os.Exit(2)
@@ -207,6 +209,7 @@ func main() {
 	ts0 := time.Now().UnixNano()
 	tick := int64(0)
 	nextTs := func() int64 { tick++; return ts0 + tick*1000000 }
+	jumpTs := func() { tick += 3000 } // +3 s
 
 	// initial state everywhere, through the normal paths
 	for _, c := range initState {
@@ -337,6 +340,13 @@ func main() {
 			default:
 				kind = "i"
 			}
+		}
+		if name == "__sleep" && len(v.args) == 2 {
+			// replay files only: let wall-clock time pass (live node) and move the replicas' clock
+			ms, _ := strconv.Atoi(string(v.args[1]))
+			time.Sleep(time.Duration(ms) * time.Millisecond)
+			tick += int64(ms)
+			continue
 		}
 		argsH := hx.HL(v.args)
 		vo.Printf("%s\t%s\t%s\t%s\n", id, argsH, v.base, v.mut)
@@ -471,7 +481,7 @@ func main() {
 				h := sand.applyEntries([][]applyReq{{{dtype: node.RedisReq, args: bb([]string{"set", "t:health", "1"})}}}, nextTs())
 				if h.panicked || h.hung || h.rsp[0] != "ok" {
 					old := sand
-					if ns, err := newSimSM("sand", *engName); err == nil {
+					if ns, err := newSimSM("sand", *engName, *policy); err == nil {
 						sand = ns
 						if !h.hung {
 							old.close()
@@ -481,6 +491,9 @@ func main() {
 			}
 		}
 
+		if r.Pick(40) == 0 {
+			jumpTs()
+		}
 		// replica pair: only what the leader really accepted
 		if verdict == "prop" && ra.name != "dead" && name != "geoadd" {
 			if rq, ok := toApplyForm(v.args, len(queue)%3 == 2); ok {
